@@ -2,7 +2,8 @@
    Proofs_*.v and followed by Print Assumptions. *)
 From Coq Require Import List ZArith Bool Arith Lia.
 From Verif Require Import lib.Wire c03.Int64 c03.Model c03.Spec c03.Witness
-     c03.Proofs_Int64 c03.Proofs_Base c03.Proofs_Limiter.
+     c03.Proofs_Int64 c03.Proofs_Base c03.Proofs_Limiter c03.Proofs_Reach c03.Proofs_Link
+     c03.Proofs_OpsMem c03.Proofs_Hist c03.Proofs_Mon.
 Import ListNotations.
 Local Open Scope Z_scope.
 
@@ -97,6 +98,65 @@ Print Assumptions c03_limiter_counts_within_caps.
 Theorem c03_limiter_history : forall c ops, lim_inv c (fold_left (lstep c) ops (init_limiter c)).
 Proof. exact limiter_history_inv. Qed.
 Print Assumptions c03_limiter_history.
+
+(* ---- history level: refinement to the abstract holders specification ----------------------
+   _partial = proved for histories of OpenConnection (any endpoint, incl. the
+   allow-list retry), OpenStream, ReserveMemory / ReleaseMemory on connections,
+   streams, nested spans and View scopes, BeginSpan, Done (repeated, on closed
+   owners); the hypothesis [wf_hist] / [core_shape] excludes SetPeer,
+   SetProtocol, SetService and gc (those are covered by the correspondence).
+   [wf_hist] is the Prop form of what callers must respect (Spec.caller_ok,
+   Spec.no_overflow), [run_a] the abstract state the monitor computes. *)
+
+(* the simulation invariant holds after every such history, unbounded, for every configuration *)
+Theorem c03_invariant_partial : forall c ops,
+  cfg_ok c -> wf_hist c (init_state c) astate0 ops ->
+  Inv c (scopes (run c (init_state c) ops)) (run_a c (init_state c) astate0 ops).
+Proof. exact history_inv. Qed.
+Print Assumptions c03_invariant_partial.
+
+(* every scope's six counters equal the sum of what the open holders charged to it hold *)
+Theorem c03_usage_is_sum_of_holders_partial : forall c ops t,
+  cfg_ok c -> wf_hist c (init_state c) astate0 ops ->
+  use_of (scopes (run c (init_state c) ops)) t = usage_A (run_a c (init_state c) astate0 ops) t.
+Proof. exact usage_is_sum_l. Qed.
+Print Assumptions c03_usage_is_sum_of_holders_partial.
+
+(* never negative, never above the scope's limit; the limit of a static scope is the configured one *)
+Theorem c03_nonneg_within_limits_partial : forall c ops t sc,
+  cfg_ok c -> wf_hist c (init_state c) astate0 ops ->
+  get (scopes (run c (init_state c) ops)) t = Some sc ->
+  nonneg (s_use sc) /\ fits (s_lim sc) (s_use sc) /\ (is_handle t = false -> s_lim sc = limit_of c t).
+Proof. exact within_limits_l. Qed.
+Print Assumptions c03_nonneg_within_limits_partial.
+
+(* an operation that answers an error changes no counter of any scope *)
+Theorem c03_refusal_is_noop_partial : forall c st a o t,
+  cfg_ok c -> Inv c (scopes st) a -> wf_op st a o ->
+  snd (step c st o) <> 0 ->
+  match o with ORelease _ _ | ODone _ => False | _ => True end ->
+  use_of (scopes (fst (step c st o))) t = use_of (scopes st) t.
+Proof. exact refusal_is_noop_l. Qed.
+Print Assumptions c03_refusal_is_noop_partial.
+
+(* when every holder is closed or holds nothing, every scope reads zero *)
+Theorem c03_release_all_zero_partial : forall c ops t,
+  cfg_ok c -> wf_hist c (init_state c) astate0 ops ->
+  (forall y h, In (y, h) (holders (run_a c (init_state c) astate0 ops)) -> h_dead h = true \/ h_own h = stat0) ->
+  use_of (scopes (run c (init_state c) ops)) t = stat0.
+Proof. exact release_all_zero_l. Qed.
+Print Assumptions c03_release_all_zero_partial.
+
+(* THE monitor that is run on the implementation's traces (its core: answer
+   legality, usage == sum of holders, signs, limits) accepts every trace of the
+   model, for every well-formed configuration and every history in which the
+   callers behave *)
+Theorem c03_trace_holds_partial : forall c ops,
+  config_wf c = true -> forallb core_shape ops = true ->
+  callers_run c astate0 [] 0 (model_trace c (init_state c) ops) = None ->
+  mon_run_gen false c astate0 [] 0 (model_trace c (init_state c) ops) = [].
+Proof. exact monitor_accepts_core. Qed.
+Print Assumptions c03_trace_holds_partial.
 
 (* ---- regression: histories that refuted the full statement before the repairs ----------- *)
 Definition full_statement : Prop :=
